@@ -172,12 +172,13 @@ Ltac step_split :=
 Ltac step_norm H1 H2 H3 :=
   cbn; unfold val_of_ptype, val_of_pdesc, strip_first, vopt, t_self, t_cls, is_kw_name; cbn; rewrite ?H1, ?H2, ?H3; cbn.
 
-(* one round of a loop body: run it on the general state of the loop, compare with the step of the model *)
+(* one round of a loop body: run it on the general state of the loop, compare with the step of the model;
+   fails when the locals were guessed wrong (with_var then tries the next candidate) *)
 Ltac step_tac H1 H2 H3 :=
   try match goal with |- context [val_of_ptype ?pty] => is_var pty; destruct pty as [[? ?]|] end;
   step_norm H1 H2 H3; repeat (step_split; step_norm H1 H2 H3);
   eexists; (split; [first [left; reflexivity | right; reflexivity] | ]);
-  step_norm H1 H2 H3; rewrite ?map_app, ?app_nil_r, ?orb_true_r, ?orb_false_r; step_norm H1 H2 H3; repeat split; try reflexivity.
+  step_norm H1 H2 H3; rewrite ?map_app, ?app_nil_r, ?orb_true_r, ?orb_false_r; step_norm H1 H2 H3; repeat split; reflexivity.
 
 (* for index, (name, param_type) in enumerate(self.types.items()): ... *)
 Ltac run_enum E :=
